@@ -12,136 +12,138 @@ Definition show_fres (r : fres) : string :=
   end.
 Definition check (rs : list rune) : string := digest (show_fres (format_res rs)).
 Definition full (rs : list rune) : string := show_fres (format_res rs).
-Eval vm_compute in ("<<<M1365>>>" ++ check (runes_of_ascii "// top
-options // c0a
-  // c0b
-{ // c1
-StringPrefixLenType // c2a
-  // c2b
-= // c3
-u8
-    // c4
-; // c5a
-  // c5b
-ArrayPrefixLenType // c6
-= // c7a
-  // c7b
-u8 // c8
-; // c9
-FixedStringPadFromLeft
-    // c10
-= // c11
-false ; // c13
-FixedStringPadChar
-    // c14
-= ' ' ; // c17a
-  // c17b
-}
-    // c18
-packet // c19
-Ack
-    // c20
+Eval vm_compute in ("<<<M1605>>>" ++ check (runes_of_ascii "MetaData Pad 
 {
-    // c21
-char[]
-    // c22
-tag7
-    // c23
-, }
-    // c25
-packet Reject // c27a
-  // c27b
-{ InSym61 // c29a
-  // c29b
-{ // c30
-repeat // c31
-Ack , zchar[ // c34
-4 ] // c36a
-  // c36b
-f1 // c37a
-  // c37b
-, } // c39a
-  // c39b
-, } // c41
-packet // c42a
-  // c42b
-Logout {
-    // c44
-char[ // c45a
-  // c45b
-4 // c46a
-  // c46b
-] // c47a
-  // c47b
-clOrdID
-    // c48
-, // c49
-}
-    // c50
-root // c51
-packet // c52a
-  // c52b
-Cancel // c53a
-  // c53b
-{ @leftPad
-    // c55
-( // c56a
-  // c56b
-' ' // c57a
-  // c57b
-) char[ 10 // c60a
-  // c60b
-] price
-    // c62
-,
-    // c63
-u8 // c64
-x
-    // c65
-, u32 // c67a
-  // c67b
-venue // c68a
-  // c68b
-@lengthOf( // c69
-Body
-    // c70
-) , // c72
-match // c73a
-  // c73b
-x // c74a
-  // c74b
-as
-    // c75
-Body
-    // c76
-{
-    // c77
-[ // c78a
-  // c78b
-92 // c79
-, 175 // c81
-] : Logout , 26 :
-    // c87
-Reject // c88
-, // c89a
-  // c89b
-144
-    // c90
-: // c91
-Ack // c92a
-  // c92b
-, } // c94
-, // c95
-u16
-    // c96
-count // c97
+
+char[]  Packet
+    ,
+    f32a i64_	`tab	here` 
+  // c
+	  // a // b
+
+,}
+	root
+	packet As{ @calculatedFrom(""CRC32"" )	@calculatedFrom(""1"")
+    @calculatedFrom(
+""// no comment""
+// a // b
+      //
+      )  As
+As
+`say ""hi""`
+,  Foo
+	msg_type,	calculatedFrom 
 @calculatedFrom(
-    // c98
-""CRC32""
-    // c99
-) // c100
-, } ")).
-Eval vm_compute in ("<<<M1462>>>" ++ check (runes_of_ascii "root
+""\n""  ) , zchar { zchar[
+
+    7 ]
+charz // `tick` ""quote"" 'q'
+      @calculatedFrom( ""x y""
+
+)	, Z9_ 
+`{ , }` ,
+
+repeat int{
+	zchar[
+3]
+    i8i8 @lengthOf(  chars),  match
+
+zchar
+    as 
+o
+{1
+	://
+    	u128,	0	:
+// trailing space 
+//x
+    	stringy,  42  : charz
+""x y""  :a1
+3
+
+    : 
+Header ,
+
+    4294967296 :o
+
+    } 
+,
+
+    repeat
+    Header
+`two words` 
+,match
+u8x
+as u8x
+{[	10
+    ]:
+
+pack
+	, 1  : 
+BodyLength
+//
+    // " ++ [27880; 37322]%N ++ runes_of_ascii "
+    0
+: MetaDataX
+
+, 42: 
+calculatedFrom
+} ,
+} 	 /// triple
+    	,
+}	,	// " ++ [27880; 37322]%N ++ runes_of_ascii "
+} 
+
+    // `tick` ""quote"" 'q'
+
+	/// triple
+  packet i64_
+{}
+    root	packet x
+{ Header {
+
+    char[/// triple
+	0
+
+    ]
+_x	`// not a comment`	,
+    } ,  @lengthOf(
+A )	uint32
+
+f32a@calculatedFrom(  ""abc"" )  
+      // `tick` ""quote"" 'q'
+  // " ++ [27880; 37322]%N ++ runes_of_ascii "
+    	,
+    repeat
+
+i16 
+trueish
+
+`u8 x,`
+	,  @rightPad
+	(
+' ' 
+) @calculatedFrom(
+	""a\\""
+) float
+,repeat	char[7	]	zchar	, @tag(  10 )
+	repeat  
+  //	t
+  	a1
+
+    falsey
+	`say ""hi""` , @lengthOf( len
+) repeat
+	zchar[ 
+00
+    // `tick` ""quote"" 'q'
+  ]
+uint8x,
+}MetaData
+metadata	{ u8 
+body
+,	}
+")).
+Eval vm_compute in ("<<<M1791>>>" ++ check (runes_of_ascii "root
 	packet// @lengthOf(
     repeatCount	{
 	@lengthOf( u8x)@calculatedFrom(
@@ -258,7 +260,7 @@ As
 } , i16	msg_type
     , }
 ")).
-Eval vm_compute in ("<<<M1816>>>" ++ check (runes_of_ascii "
+Eval vm_compute in ("<<<M1817>>>" ++ check (runes_of_ascii "
 packet calculatedFrom {	// a // b
 		string	charz `two words`
 //	t
@@ -400,751 +402,719 @@ false
     Foo
 =
     char  } // " ++ [128512]%N ++ runes_of_ascii " emoji")).
-Eval vm_compute in ("<<<M1380>>>" ++ check (runes_of_ascii "// top
-options // c0
-{ // c1
-LittleEndian = true
+Eval vm_compute in ("<<<M1733>>>" ++ check (runes_of_ascii "root packet leftPad {
+    @calculatedFrom(""" ++ [128512]%N ++ runes_of_ascii """)
+    int64 len `{ , }`,
+}
+
+packet u128 {
+    zchar[65535] chars @calculatedFrom(""\" ++ [233]%N ++ runes_of_ascii """),
+    @lengthOf(int)
+    i64_,
+    crc {
+        match Z9_ as Logon {
+            10 : int,
+            [0] : u8x,
+            // trailing space 
+            //x
+            42 : trueish,
+            [""\" ++ [233]%N ++ runes_of_ascii """, 4294967296] : Z9_,
+            ""\n"" : u128,
+        },
+        repeat string_ uint8x,
+        i8i8,
+        match u as body {
+            4294967296 : Z9_,
+            10 : Z9_,
+            [""" ++ [128512]%N ++ runes_of_ascii """, ""x y""] : pack,
+        },
+    },
+    @tag(0123456789)
+    @lengthOf(calculatedFrom)
+    @leftPad('\x00')
+    zchar[3] T,
+    match A as leftPad {
+        [""" ++ [28040; 24687]%N ++ runes_of_ascii """] : i64_,
+        ""// no comment"" : string_,
+    },
+}// trailing space ")).
+Eval vm_compute in ("<<<M1617>>>" ++ check (runes_of_ascii "  // top
+packet  // c0a
+  	// c0b
+
+  Sub// c1
+    	{ 
+	// c2
+u8	// c3a
+    // c3b
+  	a
     // c4
-;
-    // c5
-}
-    // c6
-packet // c7
-Logon
-    // c8
-{ // c9a
-  // c9b
-u8 // c10
-x // c11
-,
-    // c12
-string
-    // c13
-user
-    // c14
-,
-    // c15
-} // c16
-packet // c17
-Logout {
-    // c19
-u16 // c20a
+		, // c5
+    @calculatedFrom( ""CRC16""
+)
+
+// c8
+    i32  // c9
+
+	SubSum  
+      // c10
+  ,
+}  // c12
+	  root
+packet // c14a
+	// c14b
+	Frame 	 // c15
+      { 
+    // c16
+  u16 
+
+    // c17
+	MsgType// c18a
+    // c18b
+		,	// c19
+u16 	 // c20a
   // c20b
-reason // c21a
-  // c21b
-, // c22
-}
-    // c23
-packet
-    // c24
-Empty { // c26a
-  // c26b
-}
-    // c27
-root // c28
-packet
-    // c29
-Frame // c30
-{ // c31
-u16 // c32a
-  // c32b
-MsgType , // c34a
-  // c34b
-u8 BodyLen // c36a
-  // c36b
-@lengthOf(
-    // c37
-Body
-    // c38
-) , // c40a
-  // c40b
-u8 // c41a
-  // c41b
-flags // c42a
-  // c42b
-, Logon // c44a
-  // c44b
-Body
-    // c45
-, // c46a
-  // c46b
-u32 // c47a
-  // c47b
-trailer // c48a
-  // c48b
-, // c49a
-  // c49b
-} // c50a
-  // c50b
-")).
-Eval vm_compute in ("<<<M201>>>" ++ check (runes_of_ascii "packet charz
-{ //	t
-repeat i64_ ,trueish {
-repeat _x
-    ,	repeatCount, repeat u16
-matchKey `
-`
-,
-// " ++ [128512]%N ++ runes_of_ascii " emoji
-// a // b
-matchKey @calculatedFrom( ""a\""b"" )
-`it's` ,}	,
-@tag(
-007 )@calculatedFrom(
-    ""a\\"")	@tag(
-    3 // @lengthOf(
-)f32 f32a @lengthOf(asx ) `crlf
-line` // packet A { u8 x, }
-, repeat i8 string_
-,
-    @lengthOf(
-    // @lengthOf(
-    Logon  ) @lengthOf( x_y_z )
-    @lengthOf(
-zchar
-    ) repeat char[ 65535	] Foo`" ++ [233]%N ++ runes_of_ascii "`,
-@calculatedFrom(//
-""abc""
-) trueish @lengthOf( A )
-// " ++ [27880; 37322]%N ++ runes_of_ascii "
-// a // b
-,char[ 0 ] float , Packet
-    @calculatedFrom( ""a	b""
-), } MetaData
-    Pad { char[ 00 ] leftPad , u8 rootA `
-`,
-//
-// " ++ [128512]%N ++ runes_of_ascii " emoji
-int32
-    a1	`say ""hi""`
-    ,
-Z9_ float , //x
-i32 Pad ,
-}")).
-Eval vm_compute in ("<<<M342>>>" ++ check (runes_of_ascii "root packet Z9_	{  repeat i8i8 int`// not a comment`
-,	uint8x
-    // c
-    , f64 i8i8  `tab	here` ,@tag(
-3 ) @tag( 3 ) @tag( /// triple
-10
-// trailing space 
-// trailing space 
-) repeat int{ MetaDataX // " ++ [27880; 37322]%N ++ runes_of_ascii "
-,} , @tag( 10
-    ) int8
-    pack@lengthOf(x
-    ), Logon ,	@tag( 00
-) repeat
-rootA
-uint8x ,  @calculatedFrom( ""\n"" // a // b
-) // `tick` ""quote"" 'q'
-@lengthOf( len )
-// @lengthOf(
-// `tick` ""quote"" 'q'
-BodyLength  { matchKey f32a
-//x
-// `tick` ""quote"" 'q'
-`say ""hi""` ,} ,  char[] leftPad `{ , }` ,
-@lengthOf( float )match repeatCount as	o { 255 : matchKey ,
-    // " ++ [128512]%N ++ runes_of_ascii " emoji
-    00:	A 007 :
-    options1 } , }
-")).
-Eval vm_compute in ("<<<M1366>>>" ++ check (runes_of_ascii "
-options {
+  BodyLen // c21a
+	// c21b
+  @lengthOf( Body
+	)
+    ,	// c25a
+      // c25b
+    Sub
 
-    StringPrefixLenType	= u8
-	;
-ArrayPrefixLenType	= u8  ; FixedStringPadFromLeft
-    =
-    false ;
-FixedStringPadChar
-=
-    ' '
-;
-    }
+// c26
 
-packet Ack
-	{ char[] 
-tag7 ,}
+Body // c27
+  , 
 
-    packet
-Reject
-	{
-	InSym61 { 
-repeat
-Ack ,zchar[
-4
-	]
-f1
-	,	}	,	}
+    // c28
 
-packet 
-Logout 
-{
-    char[
-
-4 ]clOrdID
-
-,}
-
-root  packet
-	Cancel  { @leftPad
-( ' '	)
-
-char[  10	]
-price,u8 x
-
-    ,
-	u32 venue
-
-    @lengthOf(
-    Body
-)
+	string 	 // c29a
+  	// c29b
+  	note	// c30a
+	// c30b
 
 ,
-match
-	x as Body 
-{
-    [
-	92,
+	    // c31
+		@calculatedFrom(// c32
+  ""CRC16"" )i32
 
-175
-
-]:
-	Logout
-
-,26
-
-: Reject 
-, 144 :Ack
-
-, }
-,u16
-
-    count
-	@calculatedFrom( ""CRC32""
-
-),
-} ")).
-Eval vm_compute in ("<<<M163>>>" ++ check (runes_of_ascii "options { As = // trailing space 
-zchar[ 4294967296] ; } //	t
-packet len // packet A { u8 x, }
-{ @lengthOf(
-_x) match
-    // c
-    lengthOf
-    as
-//
-// `tick` ""quote"" 'q'
-string_// c
-{
-    [ 4294967296 ]: i64_ ""a	b"": o
-,
-}
-, leftPad
-    @calculatedFrom( ""`tick`""	)
-// trailing space 
-// `tick` ""quote"" 'q'
-,@leftPad( '\x00' ) repeat charz /// triple
-msg_type
-,
-repeat i8
-Foo , }packet msg_type {
-//x
-// @lengthOf(
-@leftPad (
-'0'
-)
-u64 repeatCount @calculatedFrom(
-""" ++ [28040; 24687]%N ++ runes_of_ascii """) ,// packet A { u8 x, }
-}
-")).
-Eval vm_compute in ("<<<M1481>>>" ++ check (runes_of_ascii "// top
-options {
-    // c1a
-    // c1b
-    LittleEndian = false;
-    // c5
-    StringPrefixLenType = u16;// c9
-}// c10
-
-packet Heartbeat {
-    // c13
-    @rightPad('0')
-    // c17a
-    // c17b
-    char[7] seqNo,// c22a
-    // c22b
-    uint64 Tail,
-    i16 Flags,
-    u16 msgKind,// c31a
-    // c31b
-}
-
-// c32
-root packet Reject {
-    // c36a
+Checksum 	 // c36a
     // c36b
-    zchar[3] tag7,
-    // c41
-    repeat Heartbeat,// c44
-    repeat string clOrdID,// c48
-}// c49")).
-Eval vm_compute in ("<<<M349>>>" ++ check (runes_of_ascii "root
-packet body {
-    @lengthOf(
-int
-// @lengthOf(
-//x
-)string tag
-    ,	Pad BodyLength , Z9_ {
-    /// triple
-    u `` , zchar[ 7] u ,
-},uint64 calculatedFrom, }packet
-msg_type {match f32a// " ++ [128512]%N ++ runes_of_ascii " emoji
-as pack
-    { ""// no comment"" : trueish
-, }
-    // trailing space 
-    , @calculatedFrom( // @lengthOf(
-""abc""
+    , // c37a
+  	// c37b
+	u8// c38
+  tail
+,
+}  
+  // c41
+")).
+Eval vm_compute in ("<<<M1635>>>" ++ check (runes_of_ascii "root packet u8x {
+    char i64_,
+    repeat char[1] Z9_,
+    @tag(42)
+    repeat Logon MetaDataX,
+    @leftPad()
+    Foo @lengthOf(As),
+    match u128 as calculatedFrom {
+        // " ++ [128512]%N ++ runes_of_ascii " emoji
+        4294967296 : BodyLength,
+        3 : A,
+        //
+        [4294967296, ""packet""] : o,
+        65535 : roots,
+    },
+    repeat Pad {
+        uint64 x @calculatedFrom(""" ++ [128512]%N ++ runes_of_ascii """),
+        a1 @lengthOf(As) `line1
+                line2`,
+        repeat string_ {
+            repeat uint32 _x,
+            f32 MetaDataX `it's`,
+            u64 As @lengthOf(crc),
+        },
+        roots,
+    },
+    zchar[00] u128,
+}
+//	t")).
+Eval vm_compute in ("<<<M1915>>>" ++ check (runes_of_ascii "
+root
+	    // " ++ [27880; 37322]%N ++ runes_of_ascii "
+  // @lengthOf(
+    packet Packet{ string  o@calculatedFrom(
+""\" ++ [233]%N ++ runes_of_ascii """
+	) , @lengthOf(
+
+    Packet
+        // packet A { u8 x, }
 )
-    @leftPad (
-' ') @calculatedFrom( """" //x
-) // c
-matchKey T ,// `tick` ""quote"" 'q'
-}
-")).
-Eval vm_compute in ("<<<M1731>>>" ++ check (runes_of_ascii "// top
-root packet _x {
-    // c3
-    match Foo as Z9_ {
-        // c8
-        ""a	b"" : Pad,
-        // c12
-    },// c14
-    repeat x `line1
-        line2`,// c18
-    @rightPad(' ')
-    // c22
-    @calculatedFrom(""a\\"")
-    // c25
-    metadata MetaDataX,// c28
-    @tag(0)
-    // c31
-    Logon int ``,// c35
-}// c36
 
-options {
-    // c38
-    T = '\x00'// c41
-}// c42")).
-Eval vm_compute in ("<<<M194>>>" ++ check (runes_of_ascii "// `tick` ""quote"" 'q'
-options
-    //	t
-    { }  packet lengthOf // `tick` ""quote"" 'q'
-{  } packet
-// a // b
-// " ++ [27880; 37322]%N ++ runes_of_ascii "
-Foo {
-@tag(
-1
-) string
-uint8x ,_x { chars  , string uint8x , i64 _x //
-`it's`
-    , repeat uint8 As,	}
-, float32
-f32a , @leftPad( '\x00')
-    @calculatedFrom( """ ++ [28040; 24687]%N ++ runes_of_ascii """
-) // trailing space 
-uint8 Logon
+    body
+@calculatedFrom( 	 // @lengthOf(
+	  ""x y""
+)
+
+    `it's`
+, float64
+	As
+@calculatedFrom(  ""`tick`""
+	)	,
+    char[]
+
+    stringy @calculatedFrom( """ ++ [28040; 24687]%N ++ runes_of_ascii """  ) `doc`	,
+
+    @calculatedFrom( ""a	b""
+    )  match
+float as
+o 
+{ [""" ++ [128512]%N ++ runes_of_ascii """
 ,
-    }")).
-Eval vm_compute in ("<<<M232>>>" ++ check (runes_of_ascii "options {  A = i16
-;
-    }
-    /// triple
-    root
-packet
-    rootA{
-    @tag( 7)int16 pack,Logon @calculatedFrom( ""a\""b"" ) `{ , }`
-    , @rightPad ( '\x00' )
-//
-//
-char[
-7
-    // `tick` ""quote"" 'q'
-    ]options1
-`tab	here`,@calculatedFrom(
-""" ++ [233]%N ++ runes_of_ascii "t" ++ [233]%N ++ runes_of_ascii """ )int @lengthOf(
-Packet
-) `crlf
-line`, }
-")).
-Eval vm_compute in ("<<<M80>>>" ++ check (runes_of_ascii "packet
-    len { // trailing space 
-repeat zchar f32a `// not a comment` , @tag( 255 )repeat  Pad { x T
-, } , @calculatedFrom(
-""{,}"") repeat
-    // a // b
-    leftPad { u64 u8x `tab	here` ,o Packet
-    ,char[] chars , } , @tag( 3 )float64
-    i8i8 , }
-")).
-Eval vm_compute in ("<<<M1415>>>" ++ check (runes_of_ascii "// top
-MetaData uint8x {
-    // c2
-    char[] f32a `// not a comment`,
-    // c6
-    float32 roots,
-    // c9
-    char[7] u8x,
-    // c14
-    zchar[10] f32a,
-    // c19
-    u64 pack,
-    // c22
-    u16 pack,
-    // c25
-}
-// c26")).
-Eval vm_compute in ("<<<M26>>>" ++ check (runes_of_ascii "root packet body { repeat // c
-i8i8
-`it's`
+	007
+	]
+
+    :
+metadata
+
 ,}
-packet chars
-{@rightPad
-    (  '\x00' )
+,
+
+f32a
+    a1  `a\`
+
+    , 
+}MetaData
+    repeatCount
+	{packetx
+	i64_`" ++ [28040; 24687; 31867; 22411]%N ++ runes_of_ascii "` ,  // " ++ [128512]%N ++ runes_of_ascii " emoji
+    zchar[
+
+3]
+tag
+
+    ,
+i8i8
+
+int , 
+}
+")).
+Eval vm_compute in ("<<<M1433>>>" ++ check (runes_of_ascii "options {
+    ArrayPrefixLenType = u64;
+    FixedStringPadFromLeft = true;
+    FixedStringPadChar = '0';
+}
+
+packet Quote {
+}
+
+packet Ack {
+    repeat InNote66 {
+        u8 pad0,
+    },
+}
+
+packet Reject {
+}
+
+root packet Order {
+    Quote,
+    repeat Reject,
+    string venue,
+    string seqNo,
+    uint32 Ref,
+    u16 lastPx,
+    u32 clOrdID @lengthOf(Body),
+    match lastPx as Body {
+        190 : Reject,
+        186 : Quote,
+        22 : Ack,
+    },
+    u16 Flags @calculatedFrom(""CRC32""),
+}")).
+Eval vm_compute in ("<<<M1430>>>" ++ check (runes_of_ascii "options {
+    LittleEndian = true;
+    StringPrefixLenType = u64;
+    ArrayPrefixLenType = u16;
+    FixedStringPadFromLeft = false;
+    FixedStringPadChar = ' ';
+}
+
+packet Logon {
+    zchar[5] Side2,
+}
+
+root packet Logout {
+    repeat i64 Tail,
+    Logon,
+    repeat i16 OrderId,
+    char[] venue,
+    uint64 x,
+    repeat i16 count,
+    u8 Flags,
+    match Flags as Body {
+        25 : Logon,
+    },
+    u16 Qty @calculatedFrom(""CR\
+        C32""),
+}")).
+Eval vm_compute in ("<<<M126>>>" ++ check (runes_of_ascii "
+packet T// c
+{ @tag(  00 )repeat char[]	charz
+`
+` , char[0123456789 ]BodyLength
+    @lengthOf( //x
+Z9_
+    )
+    `u8 x,`
+,
+}	MetaData
+crc {
+float64
+int `" ++ [28040; 24687; 31867; 22411]%N ++ runes_of_ascii "`// a // b
+,	As Logon `` , // `tick` ""quote"" 'q'
+uint8 // " ++ [27880; 37322]%N ++ runes_of_ascii "
+u
+, u32  stringy `
+`,
+// a // b
+//	t
+uint64 uint8x , asx
+calculatedFrom	,//x
+} MetaData chars { char[ 1
     // `tick` ""quote"" 'q'
-    leftPad {
-    char[ 10
-]
-    asx `" ++ [233]%N ++ runes_of_ascii "`, }
-    // trailing space 
+    ] //	t
+chars ,
+    } // trailing space ")).
+Eval vm_compute in ("<<<M75>>>" ++ check (runes_of_ascii "packet zchar { @calculatedFrom( ""`tick`""
+) uint32
+    falsey,} MetaData packetx {
+string
+//
+// @lengthOf(
+msg_type `u8 x,`, }packet i8i8 {zchar@lengthOf(
+uint8x
+    ) ,
+    }packet As{ zchar[ 4294967296
+    // " ++ [27880; 37322]%N ++ runes_of_ascii "
+    ] T	@calculatedFrom( ""abc"" ) , @tag(007 )
+    repeat
+    i16
+// " ++ [27880; 37322]%N ++ runes_of_ascii "
+// packet A { u8 x, }
+u8x `say ""hi""`, @lengthOf( u )
+repeat uint16 u128 , }")).
+Eval vm_compute in ("<<<M1766>>>" ++ check (runes_of_ascii "options {
+    u = 7
+    // " ++ [27880; 37322]%N ++ runes_of_ascii "
+    roots = zchar[65535]
+    msg_type = """ ++ [233]%N ++ runes_of_ascii "t" ++ [233]%N ++ runes_of_ascii """;
+    x = false
+}
+
+MetaData string_ {
+    char[42] i8i8 `" ++ [28040; 24687; 31867; 22411]%N ++ runes_of_ascii "`,
+    u8 x_y_z,
+    packetx lengthOf ``,
+    T Header `line1
+        line2`,
+    char[] u8x `two words`,
+}
+
+packet float {
+    calculatedFrom,
+    @rightPad('0')
+    char[3] u128,
+}")).
+Eval vm_compute in ("<<<M1138>>>" ++ check (runes_of_ascii "// top
+MetaData // c0
+leftPad // c1
+{ // c2
+chars // c3
+MetaDataX // c4
+, // c5
+} // c6
+packet // c7
+repeatCount // c8
+{ // c9
+char[ // c10
+255 // c11
+] // c12
+uint8x // c13
+`" ++ [233]%N ++ runes_of_ascii "` // c14
+, // c15
+} // c16
+MetaData // c17
+pack // c18
+{ // c19
+As // c20
+Foo // c21
+, // c22
+} // c23
+")).
+Eval vm_compute in ("<<<M254>>>" ++ check (runes_of_ascii "packet  zchar
+{ zchar[ 42
+//
+//
+]uint8x ,
+    match
+    A as
+As{
+    0: int
     ,
 }
-")).
-Eval vm_compute in ("<<<M1301>>>" ++ check (runes_of_ascii "
-
-  packet A
-{u8 a
-
-    ,
-	} packet 
-B { u16
-
-    b , }root packet P
-
-    {u8 K
-    , match
-    K as M
-	{ [ 1
+, @tag(7 ) @calculatedFrom(
+""packet"" ) match
+i64_
+as metadata //	t
+{
+    ""CRC32"" :
+A , }
 ,
-	2 ]: 
-A
-
-    ,
-
-3 :B
-    ,	7
-    : A,
-	}
-	,  }
-
-")).
-Eval vm_compute in ("<<<M481>>>" ++ check (runes_of_ascii "packet uint8x
+    // c
+    }	root
+packet
+uint8x {
+    char[ 00 ]	crc
+,// " ++ [128512]%N ++ runes_of_ascii " emoji
+} 	 ")).
+Eval vm_compute in ("<<<M82>>>" ++ check (runes_of_ascii "packet metadata
+{int32 calculatedFrom , } options {} options { u128 = '\x00'	;
+    string_ =	""abc""
+    ; }root
+packet i8i8
+    {  @rightPad
+( '\x00' ) repeat	metadata { string_,
+    tag@lengthOf( falsey ) ,
+} ,//x
+}")).
+Eval vm_compute in ("<<<M311>>>" ++ check (runes_of_ascii "MetaData
+falsey { Header falsey
+`
+` , string Foo `" ++ [28040; 24687; 31867; 22411]%N ++ runes_of_ascii "`
+    // `tick` ""quote"" 'q'
+    ,falsey repeatCount , i8
+u , }
+packet A	{ match _x as T { 007: lengthOf// `tick` ""quote"" 'q'
+}, } 	 ")).
+Eval vm_compute in ("<<<M1809>>>" ++ check (runes_of_ascii "packet A {
+    match k as n {
+        [
+            ""a"", 22, ""c c"", 4, ""e"",
+            66, ""g"", 8, ""i"", 10,
+            ""k"", 12
+        ] : B,
+        2 : C,
+    },
+}")).
+Eval vm_compute in ("<<<M461>>>" ++ check (runes_of_ascii "packet uint8x
 { match pack
     as msg_type	{
     0123456789 :	float
 }
 ,
-} packet //	t
-a1
-    { } options options {packetx
-    = '\x00'	; u128= ""a	b""  ; }
-")).
-Eval vm_compute in ("<<<M1388>>>" ++ check (runes_of_ascii "
-
-  packet uint8x{  match  pack as
-
-    msg_type{ 
-0123456789
-: float }
-	,
-    }
-packet	//	t
-a1
-{} options  {packetx
-
-=
-	char;
-u128
-	=""a	b""
-    ; 
-}
-")).
-Eval vm_compute in ("<<<M540>>>" ++ check (runes_of_ascii "packet uint8x
-{ match pack
-    as msg_type	{
-    0123456789 :	float
-}
-,
-} packet //	t
-a1
-    { } options " ++ [65279]%N ++ runes_of_ascii " {packetx
-    = '\x00'	; u128= ""a	b""  ; }
-")).
-Eval vm_compute in ("<<<M437>>>" ++ check (runes_of_ascii "packet uint8x
-{ match pack
-    as msg_type	{
-    0123456789 float	:
-}
-,
-} packet //	t
+} packet packet //	t
 a1
     { } options {packetx
     = '\x00'	; u128= ""a	b""  ; }
 ")).
-Eval vm_compute in ("<<<M455>>>" ++ check (runes_of_ascii "packet uint8x
-{ match pack
-    as msg_type	{
-    0123456789 :	float
-}
-,
- packet //	t
-a1
-    { } options {packetx
-    = '\x00'	; u128= ""a	b""  ; }
-")).
-Eval vm_compute in ("<<<M533>>>" ++ check (runes_of_ascii "packet uint8x
-{ match pack
-    as msg_type	{
-    0123456789 :	float
-}
-,
-} packet //	t
-a1
-    { } options {packetx
-    = '\x00'	; u128= ""a	b""  ;")).
-Eval vm_compute in ("<<<M723>>>" ++ check (runes_of_ascii "// @lengthOf(
+Eval vm_compute in ("<<<M651>>>" ++ check (runes_of_ascii "// @lengthOf(
 packet i8i8 { u128 o , }
-options { MetaD?ataX = true;
+options { MetaDataX MetaDataX = true;
     BodyLength =""packet"" x_y_z= 007
 crc //x
 = ""abc"" ;
     msg_type =
 i16 }")).
-Eval vm_compute in ("<<<M1728>>>" ++ check (runes_of_ascii "packet A {
-    u16 len @lengthOf(body) `a
-        
-        b`,
-    u32 crc @calculatedFrom(""CRC32"") `a
-        
-        b`,
-    string body,
-}")).
-Eval vm_compute in ("<<<M659>>>" ++ check (runes_of_ascii "// @lengthOf(
+Eval vm_compute in ("<<<M538>>>" ++ check (runes_of_ascii "packet uint8x
+{ match pack
+    as msg_type	{
+    0123456789 :	float
+}
+,
+} packet //	t
+a1
+    { } options {packetx
+    = '\x00'	%; u128= ""a	b""  ; }
+")).
+Eval vm_compute in ("<<<M487>>>" ++ check (runes_of_ascii "packet uint8x
+{ match pack
+    as msg_type	{
+    0123456789 :	float
+}
+,
+} packet //	t
+a1
+    { } options packetx{
+    = '\x00'	; u128= ""a	b""  ; }
+")).
+Eval vm_compute in ("<<<M702>>>" ++ check (runes_of_ascii "// @lengthOf(
 packet i8i8 { u128 o , }
 options { MetaDataX = true;
-    " ++ [21517; 23383]%N ++ runes_of_ascii " =""packet"" x_y_z= 007
+    BodyLength =""packet"" x_y_z= 007
+crc //x
+= ""abc"" ""abc"" ;
+    msg_type =
+i16 }")).
+Eval vm_compute in ("<<<M661>>>" ++ check (runes_of_ascii "// @lengthOf(
+packet i8i8 { u128 o o , }
+options { MetaDataX = true;
+    BodyLength =""packet"" x_y_z= 007
 crc //x
 = ""abc"" ;
     msg_type =
 i16 }")).
-Eval vm_compute in ("<<<M1883>>>" ++ check (runes_of_ascii "MetaData leftPad {
-    chars MetaDataX,
-}
-
-packet repeatCount {
-    // c
-    char[255] uint8x `" ++ [233]%N ++ runes_of_ascii "`,
-}
-
-MetaData pack {
-    As Foo,
-}")).
-Eval vm_compute in ("<<<M173>>>" ++ check (runes_of_ascii "
-options
-    { zchar
-    = 10 ; matchKey = char[ /// triple
-1
-    ]
-u	= ""a\""b"" ;
-    x_y_z =
-    42 ; } MetaData Logon{ }")).
-Eval vm_compute in ("<<<M1160>>>" ++ check (runes_of_ascii "MetaData leftPad { chars MetaDataX , } packet repeatCount
-// c
-{ char[ 255 ] uint8x `" ++ [233]%N ++ runes_of_ascii "` , } MetaData pack { As Foo , }")).
-Eval vm_compute in ("<<<M1708>>>" ++ check (runes_of_ascii "
-packet A	{  match k
-
-as  n	{[
-
-    ""a""
-, 
-""bb"" 
-,	007 , ""d"", ""e""
-    ]
-	:
-
-    B
-	,
-
-    2  :C
-
-} ,
-
-    } ")).
-Eval vm_compute in ("<<<M290>>>" ++ check (runes_of_ascii "options {
-    /// triple
-    asx // " ++ [27880; 37322]%N ++ runes_of_ascii "
-= 3 } MetaData T
-{  f32/// triple
-Pad `u8 x,` , } // `tick` ""quote"" 'q'")).
-Eval vm_compute in ("<<<M909>>>" ++ check (runes_of_ascii "packet A {
-  match k as n {
-    [1, ""bb"", 007, ""d"", 5, ""f"", 7, ""h"", 9, ""j"", 11, ""l""] : B
-    2 : C
-  },
-}")).
-Eval vm_compute in ("<<<M1594>>>" ++ check (runes_of_ascii "
-packet
-
-    order_item 
-{  u8
-a	,
-} root
-
-packet
-	new_order {
-
-    order_item
-,
-u8  x
-, }
-
-")).
-Eval vm_compute in ("<<<M883>>>" ++ check (runes_of_ascii "packet A {
-  match k as n {
-    [1, ""bb"", 007, ""d"", 5, ""f"", 7, ""h"", 9, ""j""] : B
-    2 : C
-  },
-}")).
-Eval vm_compute in ("<<<M642>>>" ++ check (runes_of_ascii "
-packet
-    asx {match u128 as lengthOf
-{'1'
-//	t
-// `tick` ""quote"" 'q'
-255 : x ,
-    } ,	}")).
-Eval vm_compute in ("<<<M638>>>" ++ check (runes_of_ascii "
-packet
-    asx {match u128 as leng""thOf
-{
-//	t
-// `tick` ""quote"" 'q'
-255 : x ,
-    } ,	}")).
-Eval vm_compute in ("<<<M597>>>" ++ check (runes_of_ascii "
-packet
-    asx {match u128 as lengthOf
-{
-//	t
-// `tick` ""quote"" 'q'
-255  x ,
-    } ,	}")).
-Eval vm_compute in ("<<<M860>>>" ++ check (runes_of_ascii "packet A {
-  match k as n {
-    [1, 22, ""c c"", 4, 5, ""f"", 7, 8] : B,
-    2 : C
-  },
-}")).
-Eval vm_compute in ("<<<M690>>>" ++ check (runes_of_ascii "// @lengthOf(
+Eval vm_compute in ("<<<M648>>>" ++ check (runes_of_ascii "// @lengthOf(
 packet i8i8 { u128 o , }
-options { MetaDataX = true;
-    BodyLength")).
-Eval vm_compute in ("<<<M125>>>" ++ check (runes_of_ascii "//	t
-options {
-    roots  =  ""\n""	; o
-    //
-    = '0' ;
-tag
-    =true
-    }")).
-Eval vm_compute in ("<<<M601>>>" ++ check (runes_of_ascii "
+options { = MetaDataX true;
+    BodyLength =""packet"" x_y_z= 007
+crc //x
+= ""abc"" ;
+    msg_type =
+i16 }")).
+Eval vm_compute in ("<<<M1260>>>" ++ check (runes_of_ascii "
+
+  packet
+
+B
+    {
+
+u8
+	a
+
+,
+    }root
+packet
+P{ u8 K  , u8
+
+L @lengthOf(
+	Body )
+,  match
+
+K
+    as Body
+{
+
+    1  :  B
+	,  },
+    } ")).
+Eval vm_compute in ("<<<M1665>>>" ++ check (runes_of_ascii "root packet MetaDataX {
+    repeat u8x len `" ++ [28040; 24687; 31867; 22411]%N ++ runes_of_ascii "`,
+    As {
+        u8x,
+    },
+    int f32a `" ++ [233]%N ++ runes_of_ascii "`,
+    @lengthOf(float)
+    Z9_ `a\`,
+}")).
+Eval vm_compute in ("<<<M1784>>>" ++ check (runes_of_ascii "packet A {
+    Inner {
+        u8 x `tab
+        	x`,
+        Deep {
+            u8 y `tab
+            	x`,
+        },
+    },
+}")).
+Eval vm_compute in ("<<<M171>>>" ++ check (runes_of_ascii "options { Pad=	'\x00' ; u
+= false  repeatCount
+    = false ;// trailing space 
+T
+=// a // b
+""CRC32"" ;
+    a1 = ""it's""}
+")).
+Eval vm_compute in ("<<<M1166>>>" ++ check (runes_of_ascii "MetaData leftPad { chars MetaDataX , } packet repeatCount { char[ 255
+// c
+] uint8x `" ++ [233]%N ++ runes_of_ascii "` , } MetaData pack { As Foo , }")).
+Eval vm_compute in ("<<<M1437>>>" ++ check (runes_of_ascii "packet A {
+    Inner {
+        u8 x `
+        `,
+        Deep {
+            u8 y `
+            `,
+        },
+    },
+}")).
+Eval vm_compute in ("<<<M1592>>>" ++ check (runes_of_ascii "
+packet
+A
+	{
+	match  k
+    as
+	n{  [
+    1
+    ,
+22 
+,
+
+    007,
+    4	, 5
+    ] :B ,
+    2
+:C
+}  ,
+	}
+")).
+Eval vm_compute in ("<<<M352>>>" ++ check (runes_of_ascii "packet _x {
+} // trailing space 
+options
+    { repeatCount
+    =42 //x
+;Pad = true;
+x_y_z =
+65535 ;}
+")).
+Eval vm_compute in ("<<<M620>>>" ++ check (runes_of_ascii "
 packet
     asx {match u128 as lengthOf
 {
 //	t
 // `tick` ""quote"" 'q'
-255")).
-Eval vm_compute in ("<<<M1408>>>" ++ check (runes_of_ascii "packet metadata {
-    u32 Packet `say ""hi""`,
-    // trailing space 
-}")).
-Eval vm_compute in ("<<<M167>>>" ++ check (runes_of_ascii "packet msg_type { repeat// " ++ [27880; 37322]%N ++ runes_of_ascii "
-zchar[  007] Logon `two words`, }
-")).
-Eval vm_compute in ("<<<M1222>>>" ++ check (runes_of_ascii "// top
+255 : x ,
+    } @lengthOf(	}")).
+Eval vm_compute in ("<<<M1474>>>" ++ check (runes_of_ascii "
+
+  packet	metadata
+
+{u32 	 // `tick` ""quote"" 'q'
+
+  Packet	`say ""hi""`, 
+
+// trailing space 
+} ")).
+Eval vm_compute in ("<<<M560>>>" ++ check (runes_of_ascii "
 packet
-    // c0
-x
-    // c1
+    false {match u128 as lengthOf
 {
-    // c2
-}
-    // c3
-")).
-Eval vm_compute in ("<<<M760>>>" ++ check (runes_of_ascii "MetaData @rightPad 3 i32 int32 ; int8 body ""a	b"" `" ++ [28040; 24687; 31867; 22411]%N ++ runes_of_ascii "`")).
-Eval vm_compute in ("<<<M1207>>>" ++ check (runes_of_ascii "packet body { i32 f32a // c
-`{ , }` , } options { }")).
-Eval vm_compute in ("<<<M1257>>>" ++ check (runes_of_ascii "
-root	packet
-
-P	{
-	hdr {u8  a,
-}  ,u8 
-x , 
-}
-")).
-Eval vm_compute in ("<<<M957>>>" ++ check (runes_of_ascii "MetaData M {
-    u8 x `
-x`,
-    T t `
-x`,
-}")).
-Eval vm_compute in ("<<<M1582>>>" ++ check (runes_of_ascii "packet 
-A
-
-    { 
-u8
-    x`a
-b` ,	}")).
-Eval vm_compute in ("<<<M1393>>>" ++ check (runes_of_ascii "
-MetaData tag { } 
-        // c
-")).
-Eval vm_compute in ("<<<M276>>>" ++ check (runes_of_ascii "MetaData repeatCount { }
 //	t
+// `tick` ""quote"" 'q'
+255 : x ,
+    } ,	}")).
+Eval vm_compute in ("<<<M69>>>" ++ check (runes_of_ascii "//
+packet metadata
+{ }	MetaData chars
+//x
+//	t
+{
+    char[ 42	] leftPad `crlf
+line`  ,
+}")).
+Eval vm_compute in ("<<<M879>>>" ++ check (runes_of_ascii "packet A {
+  match k as n {
+    [1, 22, 007, 4, 5, 66, 7, 8, 9, 10] : B
+    2 : C
+  },
+}")).
+Eval vm_compute in ("<<<M556>>>" ++ check (runes_of_ascii "
+,
+    asx {match u128 as lengthOf
+{
+//	t
+// `tick` ""quote"" 'q'
+255 : x ,
+    } ,	}")).
+Eval vm_compute in ("<<<M1292>>>" ++ check (runes_of_ascii "
+
+  root
+    packet
+
+P
+
+    {
+	u8
+	s_u8,  repeat  u8 r_u8  , u16
+    b_len, }
+
 ")).
-Eval vm_compute in ("<<<M757>>>" ++ check (runes_of_ascii "z>" ++ [65533]%N ++ runes_of_ascii "*" ++ [65533]%N ++ runes_of_ascii "7" ++ [65533; 65533; 65533; 65533]%N ++ runes_of_ascii "+" ++ [65533]%N ++ runes_of_ascii "~" ++ [65533; 0; 65533; 65533]%N ++ runes_of_ascii "c" ++ [1171]%N ++ runes_of_ascii "n" ++ [65533; 65533; 65533; 12; 65533]%N ++ runes_of_ascii "E>K")).
-Eval vm_compute in ("<<<M380>>>" ++ check (runes_of_ascii "root packet	Packet { }
-")).
-Eval vm_compute in ("<<<M1558>>>" ++ check (runes_of_ascii "
-options{  // a
-  }
-")).
-Eval vm_compute in ("<<<M1927>>>" ++ check (runes_of_ascii "MetaData u {
+Eval vm_compute in ("<<<M803>>>" ++ check (runes_of_ascii "packet A {
+  match k as n {
+    [""a"", ""bb"", ""c c"", ""d""] : B
+    2 : C
+  },
+}")).
+Eval vm_compute in ("<<<M807>>>" ++ check (runes_of_ascii "packet A {
+  match k as n {
+    [""a"", 22, ""c c"", 4] : B
+    2 : C
+  },
+}")).
+Eval vm_compute in ("<<<M449>>>" ++ check (runes_of_ascii "packet uint8x
+{ match pack
+    as msg_type	{
+    0123456789 :	float")).
+Eval vm_compute in ("<<<M246>>>" ++ check (runes_of_ascii "MetaData x {x Packet
+,i32 lengthOf
+, // `tick` ""quote"" 'q'
 }
-// c")).
-Eval vm_compute in ("<<<M1037>>>" ++ check (runes_of_ascii "// c" ++ [12]%N ++ runes_of_ascii "
+")).
+Eval vm_compute in ("<<<M1255>>>" ++ check (runes_of_ascii "root packet P {
+    hdr {
+        u8 a,
+    },
+    u8 x,
+}
+")).
+Eval vm_compute in ("<<<M1952>>>" ++ check (runes_of_ascii "root
+
+packet P
+    {repeat
+char
+	cs
+    ,
+u8
+x 
+,  }
+
+")).
+Eval vm_compute in ("<<<M1211>>>" ++ check (runes_of_ascii "packet body { i32 f32a `{ , }` , // c
+} options { }")).
+Eval vm_compute in ("<<<M1563>>>" ++ check (runes_of_ascii "
+root
+	packet
+A
+{ u8 x `a
+    b
+  c` ,
+    }
+")).
+Eval vm_compute in ("<<<M1095>>>" ++ check (runes_of_ascii "packet A { char[ // a
+ 3 // b
+ ] // c
+ x, }")).
+Eval vm_compute in ("<<<M1742>>>" ++ check (runes_of_ascii "root packet A {
+    u8 x `a
+    b`,
+}")).
+Eval vm_compute in ("<<<M1489>>>" ++ check (runes_of_ascii "// `tick` ""quote"" 'q'
+options {
+}")).
+Eval vm_compute in ("<<<M983>>>" ++ check (runes_of_ascii "packet A {
+ u8 x `d" ++ [12288]%N ++ runes_of_ascii "`, // c" ++ [12288]%N ++ runes_of_ascii "
+}")).
+Eval vm_compute in ("<<<M917>>>" ++ check (runes_of_ascii "packet A {
+    u8 x `a
+b`,
+}")).
+Eval vm_compute in ("<<<M1388>>>" ++ check (runes_of_ascii "
+// c
+    packet x{ 
+}")).
+Eval vm_compute in ("<<<M1631>>>" ++ check (runes_of_ascii "packet Packet
+
+{
+}
+
+")).
+Eval vm_compute in ("<<<M278>>>" ++ check (runes_of_ascii "packet Packet { }
+")).
+Eval vm_compute in ("<<<M1052>>>" ++ check (runes_of_ascii "// c" ++ [65279]%N ++ runes_of_ascii "
 packet A {
 }")).
-Eval vm_compute in ("<<<M1044>>>" ++ check (runes_of_ascii "packet A {
-}// c" ++ [8203]%N)).
-Eval vm_compute in ("<<<M1843>>>" ++ check (runes_of_ascii "MetaData u {
+Eval vm_compute in ("<<<M1224>>>" ++ check (runes_of_ascii "// c
+packet x { }")).
+Eval vm_compute in ("<<<M1932>>>" ++ check (runes_of_ascii "MetaData A {
 }")).
-Eval vm_compute in ("<<<M980>>>" ++ check (runes_of_ascii "// c" ++ [12288]%N)).
-Eval vm_compute in ("<<<M745>>>" ++ check ([65533]%N ++ runes_of_ascii "1")).
+Eval vm_compute in ("<<<M975>>>" ++ check (runes_of_ascii "// c ")).
+Eval vm_compute in ("<<<M737>>>" ++ check ([1875; 65533]%N)).
